@@ -215,7 +215,7 @@ def clip_rules(ctx, d2, vle):
             return total_ok(e.body, defs, depth) and total_ok(e.orelse, defs, depth)
         if isinstance(e, ast.Name) and e.id in defs and depth < 4:
             return total_ok(defs[e.id], defs, depth + 1)
-        return src(e) in TOTALS
+        return src(e) in TOTALS or src(_R(defs, set()).visit(_clone(e))) in TOTALS
 
     for p in ps:
         if p.raised:
@@ -228,12 +228,13 @@ def clip_rules(ctx, d2, vle):
         V = None
         defs = {}
         hi = lo = None
+        from ..resolve import path_defs as _path_defs
         for e in p.events:
             if e.kind == 'assign' and isinstance(e.stmt, ast.Assign):
                 if e.stmt is calls[-1].stmt:
                     V = e.target
-                else:
-                    defs[e.target] = e.stmt.value
+            if e.kind == 'store' and V is not None:
+                defs = {k_: v_ for k_, v_ in _path_defs(p, e).items() if k_ != V}
             if V is None or p.events.index(e) <= i0 or e.kind != 'store' or not isinstance(e.node, ast.Subscript) \
                     or not isinstance(e.stmt, ast.Assign) or src(e.node.value) != V:
                 continue
@@ -298,7 +299,8 @@ def clip_rules(ctx, d2, vle):
             pos = cmp_outcome(p, fr, (ast.Gt,), 0)
             big = cmp_outcome(p, fr, (ast.Gt,), 1)
             amt = tr[0].value
-            if not (neg is False and pos is True and big is not None):
+            # (f > 0 established on the path makes a separate f < 0 test redundant)
+            if not (neg is not True and pos is True and big is not None):
                 bad = 'a transfer happens on a path where the fraction was not tested against 0 and 1'
             elif big is True:
                 # the fraction was reset to 1: the amount moved must be exactly the phase amount (coefficient 1, no quotient left)
